@@ -5,6 +5,10 @@ HERE = os.path.dirname(os.path.dirname(os.path.abspath(__file__)))
 PY = '/venv/bin/python'
 
 CHECKS = {
+ 'C13': dict(sec='2/C13', cat='exploration',
+   text='Generated abscissae, fitting problems and trace sets (arrays/scalars/float32/integer-typed, 1-13 basis functions of all four families, weights over six decades with zero weights, fixed coefficients, inputfunc, 1-6 traces with and without the BOSS jump, FITS-style tables, near-integer grid ranges) are run through the real bases, func_fit, xy2traceset/TraceSet and traceset2xy; bases are compared with numpy.polynomial, fits with an SVD weighted least-squares solution plus a conditioning-independent normal-equation test, evaluations with an independent normalisation/jump model, grid sizes in exact rationals. Held on the executions observed.',
+   note='Trusts numpy.polynomial Vandermonde recurrences and numpy.linalg.lstsq and the module docstrings for the split basis and the x-jump; one float dtype per call, non-negative weights, >= ncoeff+1 weighted points, design condition <= 3e4; stated ambiguity bands for the H(x) step and near-integer grid ranges.',
+   tech='runtime monitoring: boundary recorder + reference-model oracles (numpy.polynomial, dense weighted lstsq) + zero-weight perturbation metamorphic check'),
  'C10': dict(sec='2/C10', cat='exploration',
    text='Each generated problem (polynomial/slow signal + noise, injected outliers, zero and negative weights, all breakpoint options, limits, maxiter 0-10, invvar=None, float32) is run as given, under a random permutation and with the non-positively weighted points deleted, and compared with an independent dense fit/reject/refit loop (mask exactly, curve within a conditioning-derived tolerance, number of fits equal); residuals within 1e-6 of a limit make a case undecided. A recorder on bspline.fit counts the refits the real loop performed.',
    note='Trusts numpy lstsq and the reference loop transcription of the documented procedure (cumulative rejection); well-supported problems only; cases where the fit itself drops a breakpoint are counted and excluded.',
